@@ -42,6 +42,8 @@ struct Fixture {
 }
 
 thread_local! {
+    /// Descriptor of the second ring of the "pollable" case.
+    static RING2: std::cell::Cell<i32> = const { std::cell::Cell::new(-1) };
     static FIXTURE: std::cell::RefCell<Option<Fixture>> = const { std::cell::RefCell::new(None) };
 }
 
@@ -144,6 +146,7 @@ fn compare(case: &Value, fx: &Fixture, sqe: &Sqe, p: &Ptrs, out: &mut Vec<Value>
         "CWD" => libc::AT_FDCWD,
         "NONE" => -1,
         "OTHER" => fx.other.as_raw_fd(),
+        "RING2" => RING2.with(std::cell::Cell::get),
         _ => e["fdv"].as_i64().unwrap() as i32,
     };
     if sqe.fd() != want_fd {
@@ -945,6 +948,45 @@ fn run_case(case: &Value) -> Vec<Value> {
                     let s = fd.multishot_recv(fx.pool.clone());
                     stream!(match flags { Some(fl) => s.flags(fl), None => s });
                 }
+            }
+            "pollable" => {
+                // Ring::pollable of a second ring, submitted on the fixture's ring.
+                let ring2 = a10::Ring::config().with_submission_queue_size(2).build().expect("second ring");
+                let rfd2 = *simk::kernel().rings.keys().max().unwrap();
+                RING2.with(|c| c.set(rfd2));
+                let waker = wakers::waker(0);
+                let mut ctx = Context::from_waker(&waker);
+                simk::kernel().take_notes();
+                let mut stream = ring2.pollable(sq.clone());
+                if Pin::new(&mut stream).poll_next(&mut ctx).is_ready() {
+                    out.push(json!({"field": "submission", "expected": "pending", "observed": "ready"}));
+                }
+                let _ = fx.ring.poll(Some(Duration::ZERO));
+                let notes = simk::kernel().take_notes();
+                let consumed: Vec<Sqe> = notes.iter().filter_map(|n| if let simk::Note::Consumed { sqe, .. } = n { Some(*sqe) } else { None }).collect();
+                if let [sqe] = consumed.as_slice() {
+                    compare(case, fx, sqe, &none, &mut out);
+                    // Readable twice (the request stays armed), then an error ends it.
+                    for round in 0..2 {
+                        simk::kernel().complete(fx.rfd, sqe.user_data(), 1, simk::CQE_F_MORE);
+                        let _ = fx.ring.poll(Some(Duration::ZERO));
+                        match Pin::new(&mut stream).poll_next(&mut ctx) {
+                            Poll::Ready(Some(Ok(()))) => {}
+                            other => out.push(json!({"field": format!("pollable result {round}"), "expected": "Some(Ok(()))", "observed": format!("{other:?}")})),
+                        }
+                    }
+                    simk::kernel().complete(fx.rfd, sqe.user_data(), -libc::EBADF, 0);
+                    let _ = fx.ring.poll(Some(Duration::ZERO));
+                    match Pin::new(&mut stream).poll_next(&mut ctx) {
+                        Poll::Ready(Some(Err(ref err))) if err.raw_os_error() == Some(libc::EBADF) => {}
+                        other => out.push(json!({"field": "pollable error result", "expected": "Some(Err(EBADF))", "observed": format!("{other:?}")})),
+                    }
+                } else {
+                    out.push(json!({"field": "submission", "expected": "one entry", "observed": consumed.len()}));
+                }
+                drop(stream);
+                let _ = fx.ring.poll(Some(Duration::ZERO));
+                drop(ring2);
             }
             "pipe" => run_op!(case, fx, &mut out, none, { (a10::pipe::pipe(sq.clone()).kind(k), Ptrs::default()) }, |s: &Sqe| {
                 let fds = s.addr() as *mut i32;
